@@ -156,7 +156,10 @@ pub fn build<Ef: LabEffect>(cmd: &Cmd) -> Command<Ef, Event> {
         }
         Cmd::Async(script) => {
             let script = script.clone();
-            Command::new(move |ctx| run_script::<Ef>(Ctx::Cmd(ctx), script))
+            match crate::ops::mixed_caps() {
+                Some((op, sig)) => Command::new(move |ctx| run_script::<Ef>(Ctx::Mixed { cmd: ctx, op, sig }, script)),
+                None => Command::new(move |ctx| run_script::<Ef>(Ctx::Cmd(ctx), script)),
+            }
         }
     }
 }
@@ -203,6 +206,13 @@ pub enum Ctx<Ef> {
         op: CapabilityContext<Op, Event>,
         sig: CapabilityContext<Sig, Event>,
     },
+    /// a Command task (spawn, events, join handles through the command context) whose shell
+    /// requests go through the capability contexts
+    Mixed {
+        cmd: CommandContext<Ef, Event>,
+        op: CapabilityContext<Op, Event>,
+        sig: CapabilityContext<Sig, Event>,
+    },
 }
 
 impl<Ef> Clone for Ctx<Ef> {
@@ -210,6 +220,11 @@ impl<Ef> Clone for Ctx<Ef> {
         match self {
             Ctx::Cmd(c) => Ctx::Cmd(c.clone()),
             Ctx::Legacy { op, sig } => Ctx::Legacy {
+                op: op.clone(),
+                sig: sig.clone(),
+            },
+            Ctx::Mixed { cmd, op, sig } => Ctx::Mixed {
+                cmd: cmd.clone(),
                 op: op.clone(),
                 sig: sig.clone(),
             },
@@ -226,35 +241,43 @@ impl<Ef: LabEffect> Ctx<Ef> {
     fn request(&self, op: Op) -> BoxFuture<'static, u64> {
         match self {
             Ctx::Cmd(c) => c.request_from_shell(op).map(|v| v.0).boxed(),
-            Ctx::Legacy { op: c, .. } => c.request_from_shell(op).map(|v| v.0).boxed(),
+            Ctx::Legacy { op: c, .. } | Ctx::Mixed { op: c, .. } => c.request_from_shell(op).map(|v| v.0).boxed(),
         }
     }
 
     fn stream(&self, op: Op) -> BoxStream<'static, u64> {
         match self {
             Ctx::Cmd(c) => c.stream_from_shell(op).map(|v| v.0).boxed(),
-            Ctx::Legacy { op: c, .. } => c.stream_from_shell(op).map(|v| v.0).boxed(),
+            Ctx::Legacy { op: c, .. } | Ctx::Mixed { op: c, .. } => c.stream_from_shell(op).map(|v| v.0).boxed(),
         }
     }
 
     async fn notify(&self, sig: Sig) {
         match self {
             Ctx::Cmd(c) => c.notify_shell(sig),
-            Ctx::Legacy { sig: c, .. } => c.notify_shell(sig).await,
+            Ctx::Legacy { sig: c, .. } | Ctx::Mixed { sig: c, .. } => c.notify_shell(sig).await,
         }
     }
 
     fn emit(&self, ev: Event) {
+        crate::ops::log_emission(&ev);
         match self {
-            Ctx::Cmd(c) => c.send_event(ev),
+            Ctx::Cmd(c) | Ctx::Mixed { cmd: c, .. } => c.send_event(ev),
             Ctx::Legacy { op, .. } => op.update_app(ev),
         }
     }
 
     fn spawn(&self, script: Script, tx: Option<Tx>) -> Handle {
         match self {
-            Ctx::Cmd(c) => {
-                let h = c.spawn(move |ctx| run_script_with::<Ef>(Ctx::Cmd(ctx), script, tx));
+            Ctx::Cmd(c) | Ctx::Mixed { cmd: c, .. } => {
+                let me = self.clone();
+                let h = c.spawn(move |ctx| {
+                    let inner = match me {
+                        Ctx::Mixed { op, sig, .. } => Ctx::Mixed { cmd: ctx, op, sig },
+                        _ => Ctx::Cmd(ctx),
+                    };
+                    run_script_with::<Ef>(inner, script, tx)
+                });
                 let h2 = h.clone();
                 Handle {
                     abort: Box::new(move || h2.abort()),
